@@ -27,15 +27,19 @@ environment action `wDeadline` (the timeout has elapsed) makes it `due`; only th
 timer case (`wFire`). Context cancellation (`wCancel`) is an environment action enabled whenever the waiter is in its
 select.
 
+Actions (23): Run — tick, ubLock, ubRead, ubSel, ubSet, recv, nRLock, nCheck, nSend, nDrain, nPut, nDone; waiters —
+wLock, wSub, wRecv, wDeadline, wFire, wCancel, wUnsub; SetMasterHead callers — sLock, sSend; environment — setAlive,
+setRtt. Pool start-up (`addConnection`: order of the members, initial best connection) is `startPool` below.
+
 `updateBest` is modelled read by read (round 2; no abstraction of the choice): under the write lock the first loop
 reads `MasterHead()` of every member in order (each read needs that member's mutex) — `ubRead`; the selection loop
 reads `IsOK()` of every member and, in the original code (`oneSnapshot = false`), `MasterHead()` and
 `AverageRoundTrip()` AGAIN — `ubSel` (the repaired code reads the round-trip times in the first loop too); `ubSet` then stores exactly `PoolSelect.selectWith` applied to the maximum of the
 first loop and to what the selection loop read. SetMasterHead callers may move heads between any two reads. With
 `notifySwitch` a change of the choice offers the new member's (snapshot) head to every waiter, still under the write
-lock. Liveness / round-trip time of a member are environment-controlled (`setAlive`, `setRtt`). Timer expiry and
-context cancellation of a waiter and the ticker of `Run` are environment actions (`wFire`, `tick`), enabled whenever
-the thread is parked in its select. Ghost fields (`received`, `fired`, `offered`, `log`) record history for the theorems
+lock. Liveness / round-trip time of a member are environment-controlled (`setAlive`, `setRtt`). The ticker of `Run`
+(`tick`), a waiter's timeout elapsing (`wDeadline`) and its context being cancelled (`wCancel`) are environment
+actions; `wFire` (the select taking the elapsed timer) is the waiter's own step. Ghost fields (`received`, `fired`, `offered`, `log`) record history for the theorems
 and do not influence any step. -/
 namespace Tongo.PoolSM
 open Tongo.PoolSelect (Conn Strategy selectWith maxOfSeqs)
@@ -372,6 +376,22 @@ def step (v : Variant) (s : State) : Action → Option State
   -- ---------------------------------------------------------------- environment: members die, revive, slow down
   | .setAlive c b => if c < s.alive.length then some { s with alive := s.alive.set c b } else none
   | .setRtt c r => if c < s.rtt.length then some { s with rtt := s.rtt.set c r } else none
+
+/-! ### pool start-up: `addConnection` -/
+
+/-- position of a new member: `sort.Slice(p.conns, func(i, j) { return p.conns[i].ID() < p.conns[j].ID() })` on
+distinct ids -/
+def insertId (id : Nat) : List Nat → List Nat
+  | [] => [id]
+  | x :: xs => if id < x then id :: x :: xs else x :: insertId id xs
+
+/-- `addConnection`: the member list stays ordered by id (= position in the configuration), and
+`if len(p.conns) == 1 { p.bestConn = c }`: the first connection that arrives becomes the initial best one -/
+def addConn (st : List Nat × Option Nat) (id : Nat) : List Nat × Option Nat :=
+  (insertId id st.1, if (insertId id st.1).length = 1 then some id else st.2)
+
+/-- members (by id) and best connection after the connections have arrived in the given order -/
+def startPool (arrival : List Nat) : List Nat × Option Nat := arrival.foldl addConn ([], none)
 
 /-- run a list of actions; `none` if one of them is not enabled -/
 def runTrace (v : Variant) (s : State) : List Action → Option State
